@@ -98,16 +98,23 @@ static void setup_queue(int depth, int msg_len)
 	shim_guard_add(store + len, GUARD);
 }
 
+/* payload pattern; of a large message only the first and last 48 bytes are written and checked */
 static void fill(uint8_t *p, uint32_t id)
 {
-	for (int i = 0; i < M; i++)
+	for (int i = 0; i < M; i++) {
+		if (i == 48 && M > 96)
+			i = M - 48;
 		p[i] = (uint8_t)(id * 131u + (uint32_t)i * 29u + 7u);
+	}
 }
 static bool intact(const uint8_t *p, uint32_t id)
 {
-	for (int i = 0; i < M; i++)
+	for (int i = 0; i < M; i++) {
+		if (i == 48 && M > 96)
+			i = M - 48;
 		if (p[i] != (uint8_t)(id * 131u + (uint32_t)i * 29u + 7u))
 			return false;
+	}
 	return true;
 }
 
@@ -385,6 +392,12 @@ static void co_case(long long c)
 	}
 	co_lag = (int)vh_below(&co_rng, (uint32_t)depth + 1); /* 0..depth messages held back (depth: the receiver polls again while holding everything) */
 	int msg_len = 1 + (int)vh_below(&co_rng, 12);
+	if (vh_below(&co_rng, 12) == 0 && depth >= 2) {
+		/* a large geometry: the last buffer starts 64 KiB or more from the base (message sizes are 16 bit, offsets are not) */
+		int least = 65536 / (depth - 1) + 1;
+		msg_len = least >= 65535 ? 65535 : least + (int)vh_below(&co_rng, (uint32_t)(65535 - least));
+		VH_COUNT("runs_with_buffers_beyond_64KiB");
+	}
 	int policy = vh_below(&co_rng, 3) == 0 ? SHIM_POLICY_PCT : SHIM_POLICY_RANDOM;
 	static const uint32_t probs[] = { 1311, 6554, 32768 }; /* 0.02, 0.1, 0.5 */
 	uint32_t param = policy == SHIM_POLICY_PCT ? 1 + vh_below(&co_rng, 3) : probs[vh_below(&co_rng, 3)];
